@@ -261,6 +261,20 @@ pub fn judge_c13(l: &Layout, r: &ExecResult) -> Result<(), String> {
 /// Offline simulator over the planner's public output: every Copy is judged at the
 /// moment it would write (a stale StoreInMem that no Copy uses is legal).
 pub fn judge_ops(l: &Layout) -> Result<(usize, usize), String> {
+    let l2 = l.clone();
+    match std::panic::catch_unwind(move || judge_ops_inner(&l2)) {
+        Ok(r) => r,
+        Err(p) => Err(format!(
+            "panic on a valid layout: {}",
+            p.downcast_ref::<String>()
+                .cloned()
+                .or_else(|| p.downcast_ref::<&str>().map(|s| s.to_string()))
+                .unwrap_or_else(|| "panic".into())
+        )),
+    }
+}
+
+fn judge_ops_inner(l: &Layout) -> Result<(usize, usize), String> {
     let prior_index = l.prior_index();
     let mut target_index = l.target_index();
     prior_index.strip_chunks_already_in_place(&mut target_index);
